@@ -1,2 +1,2 @@
-import C2paModel.Model.C30
-def main : IO Unit := C2pa.runDriver C2pa.C30.handle
+import C2paModel.Model.C30Scan
+def main : IO Unit := C2pa.runDriver C2pa.C30.handleAll
